@@ -158,6 +158,7 @@ func c30Run(j c30Job) (out c30Out) {
 			out.Enabled = append(out.Enabled, p.String())
 		}
 	}
+	out.Enabled = c30Enabled(j.Mask)
 	s, url, err := startServer(opts, nil)
 	if err != nil {
 		out.StartErr = err.Error()
@@ -465,12 +466,22 @@ func c30() {
 	r.Finish()
 }
 
+// c30Enabled is the configuration a mask stands for. A server built without any EnableSecurity option is the
+// library's unsecured default server: its configuration is the single pair None/None (the repository's own tests
+// start such servers and connect without security), which it must then both advertise and accept, and nothing else.
 func c30Enabled(mask uint16) []string {
 	wf, _ := c30Pairs()
 	var out []string
 	for i, p := range wf {
 		if mask&(1<<i) != 0 {
 			out = append(out, p.String())
+		}
+	}
+	if mask == 0 {
+		for _, p := range wf {
+			if p.Policy == "None" {
+				out = append(out, p.String())
+			}
 		}
 	}
 	return out
